@@ -24,6 +24,7 @@ type Config struct {
 	MemKB      int           // ulimit -v
 	OpTimeout  time.Duration // watchdog per micro-op
 	Resumable  map[string]bool
+	MaxFatal   int // stop feeding commands after this many crashes+timeouts+ooms (default 120)
 }
 
 // Cmd mirrors workerlib.Cmd loosely: raw JSON with the few fields the supervisor needs.
@@ -96,6 +97,9 @@ func Run(cfg *Config, cmds []*Cmd, onEvent func(cid int, line []byte)) (*Stats, 
 	if cfg.MemKB == 0 {
 		cfg.MemKB = 3000000
 	}
+	if cfg.MaxFatal == 0 {
+		cfg.MaxFatal = 120
+	}
 	if cfg.OpTimeout == 0 {
 		cfg.OpTimeout = 10 * time.Second
 	}
@@ -120,6 +124,16 @@ func Run(cfg *Config, cmds []*Cmd, onEvent func(cid int, line []byte)) (*Stats, 
 				}
 			}()
 			for c := range work {
+				// after many fatal outcomes (a decoder that hangs on most inputs) the rest adds nothing but hours
+				mu.Lock()
+				tooMany := st.Crashes+st.Timeouts+st.OOMs > cfg.MaxFatal
+				if tooMany {
+					st.Skipped++
+				}
+				mu.Unlock()
+				if tooMany {
+					continue
+				}
 				from := 0
 				attempts := 0
 				for {
@@ -244,7 +258,10 @@ func Run(cfg *Config, cmds []*Cmd, onEvent func(cid int, line []byte)) (*Stats, 
 					eb, _ := json.Marshal(ev)
 					onEvent(c.Cid, eb)
 					mu.Unlock()
-					if curM >= 0 && cfg.Resumable[c.Op] {
+					mu.Lock()
+					over := st.Crashes+st.Timeouts+st.OOMs > cfg.MaxFatal
+					mu.Unlock()
+					if curM >= 0 && cfg.Resumable[c.Op] && !over {
 						from = curM + 1
 						continue
 					}
